@@ -23,6 +23,8 @@ def prop_of(sig):
     if ":blocked-" in ":" + tail or "pending-enabled-not-woken" in tail:
         return "C06" if (sig.split(":")[0].endswith("_async") or "_fut:" in sig) else "C05"
     if "panic:" in tail: return "C05"
+    # the worker process died while running the case (chanh gen restarts behind it): memory unsafety reached
+    if tail.startswith("crash:"): return "C06" if sig.split(":")[0].endswith("_async") else "C05"
     if any(k in tail for k in ("value-never-sent", "value-received-twice", "returned-in-error-and-received",
                                "error-does-not-return", "ok-value-never-received")): return "C01"
     if any(k in tail for k in ("closed-handle", "second-close-ok", "accepted-after-all-receivers-gone",
@@ -36,10 +38,11 @@ KNOWN = [(f.get("id", "?"), f["property"], f["signature_regex"], f.get("witness"
          for f in json.load(open(os.path.join(VERIF, "known_findings.json")))["open"] if f.get("signature_regex")]
 # families found by the thorough-tier validation of the history-level ties, pending their merge into known_findings.json
 # (merge_findings.py, run by the lead): same shape; an entry already merged is simply listed twice
-_CHANQ = os.path.join(FIND, "chanq.entries.json")
-if os.path.exists(_CHANQ):
-    KNOWN += [(f.get("id", "?"), f["property"], f["signature_regex"], f.get("witness", ""), f.get("what", ""))
-              for f in json.load(open(_CHANQ)) if f.get("signature_regex")]
+for _E in ("chanq.entries.json", "chanx.entries.json"):
+    _P = os.path.join(FIND, _E)
+    if os.path.exists(_P):
+        KNOWN += [(f.get("id", "?"), f["property"], f["signature_regex"], f.get("witness", ""), f.get("what", ""))
+                  for f in json.load(open(_P)) if f.get("signature_regex")]
 
 def classify(ctx, tie):
     """Keep the monitor failures of this property; turn those matching a known family into known findings."""
@@ -86,7 +89,8 @@ def witness_tie(ctx, h, drv, fname, drvargs=()):
     if os.path.exists(p):
         return tie(ctx, "known-" + fname[:-5], [h, "run", p], [drv, *drvargs])
 
-def standard_run(ctx, module, theorems, witnesses, quick_n=(3000, 3000), thorough_n=(60000, 60000), extra=None):
+def standard_run(ctx, module, theorems, witnesses, quick_n=(3000, 3000), thorough_n=(60000, 60000), extra=None,
+                 async_n=(1500, 30000)):
     ctx.lean_obligations(module, theorems)
     drv = ctx.lean_exe("fvdrv_chan")
     h = ctx.cargo_build("chan", "chanh", rustflags=CHAN_RUSTFLAGS)
@@ -101,6 +105,12 @@ def standard_run(ctx, module, theorems, witnesses, quick_n=(3000, 3000), thoroug
     ns, nc = quick_n if ctx.quick else thorough_n
     tie(ctx, "seq-differential", [h, "gen", "--seed", str(ctx.seed), "--cases", str(ns), "--mode", "seq", "--tier", ctx.tier], [drv])
     tie(ctx, "conc-linearizability", [h, "gen", "--seed", str(ctx.seed), "--cases", str(nc), "--mode", "conc", "--tier", ctx.tier], [drv])
+    # manual-poll programs (chanx C): registered-waiter states are reached deterministically there (k > cap pending futures,
+    # then cap+1 non-blocking operations of the other side, `len` / `is_full` probes); lost-wakeup mismatches of the
+    # futures checker belong to C06 and are left to it (liveness_tie keeps only those of the property being checked)
+    na = async_n[0] if ctx.quick else async_n[1]
+    if na:
+        liveness_tie(ctx, "async-futures", [h, "gen", "--seed", str(ctx.seed), "--cases", str(na), "--mode", "async", "--tier", ctx.tier], drv)
     if extra:
         extra(ctx, h, drv)
     return h, drv
